@@ -132,7 +132,9 @@ def make_func(npos, ndef, varargs, nkw, kwmask, varkw, annot, is_async):
     if varkw:
         parts.append('**kw' + (': str' if annot else ''))
     ret = ' -> list' if annot else ''
-    src = '%sdef target(%s)%s:\n    "doc of target"\n    return sorted(locals().items(), key=repr)\n' % ('async ' if is_async else '', ', '.join(parts), ret)
+    # every other signature has no docstring at all (__doc__ is None, which a wrapper must keep)
+    doc = '    "doc of target"\n' if (npos + nkw + varargs) % 2 == 0 else ''
+    src = '%sdef target(%s)%s:\n%s    return sorted(locals().items(), key=repr)\n' % ('async ' if is_async else '', ', '.join(parts), ret, doc)
     ns = {}
     exec(src, ns)
     return ns['target'], src
